@@ -2,9 +2,15 @@ from . import COMMON_TB
 
 CONFIG = dict(
     harness="c06",
-    comparisons=[
-        dict(name="model", code=600, kind="eq"),
-        dict(name="spec", code=601, kind="eq", predicate=True),
+    suites=[
+        dict(suffix="", comparisons=[
+            dict(name="model", code=600, kind="eq"),
+            dict(name="spec", code=601, kind="eq", predicate=True),
+        ]),
+        dict(suffix="-t", comparisons=[
+            dict(name="model", code=600, kind="eq"),
+            dict(name="holds", code=602, kind="holds", predicate=True),
+        ]),
     ],
     trusted_base=COMMON_TB + [
         "std::sync::Arc / Weak / Mutex behave as their documentation says and are linearizable (Arc = counter whose "
